@@ -6,6 +6,7 @@ import (
 	"go/token"
 	"go/types"
 	"sort"
+	"strconv"
 	"strings"
 
 	"golang.org/x/tools/go/packages"
@@ -19,7 +20,7 @@ func init() { register("C18", checkC18) }
 const pParserAST = "github.com/arana-db/parser/ast"
 
 func checkC18(r *core.Run) {
-	r.Explain = "The property itself (recorded image == rows the statement changed) ranges over database contents and is NOT decidable statically. Three structural necessary conditions are decided: (C18.derive) the before-image SELECT of update/delete (and their multi-statement variants) takes From/Where/OrderBy/Limit from the business statement's own AST nodes and locks FOR UPDATE, and the argument selection traverses exactly the expression-bearing clauses that were copied; (C18.markers) the parameter-marker collector is complete: it walks the expression with the parser's visitor, or its type switch covers every expression node type of the parser that has expression children and recurses into all of them; (C18.scan) the scan-type table and the JDBC code table agree for every MySQL data type (no integer scan type for a binary/text code and the like); (C18.rows) every loop over a result set in the executors asks Err() before reporting success, so a read that failed mid-way is not taken for the complete image; (C18.case) a column name in folded form (CIStr.L, strings.ToLower/ToUpper) is compared with or looked up among metadata names only when these are folded the same way (a small qualifier analysis over value origins: lower / upper / metadata spelling); (C18.sticky) where one image query covers several statements, the flag that keeps the WHERE clause in that query can only be lowered inside the loop over the statements (once a statement without WHERE was seen the whole table is selected, whatever follows); (C18.clause) an optional clause of the parsed statement (Where, Limit, Order/OrderBy — nil when the statement has none) is used as a method receiver only where it was tested non-nil on every path, so a statement without that clause is handled or rejected instead of crashing the executor; (C18.recorded) an executor adds a before/after image to the transaction's round images only on the nil-error edge of the business statement (the callback) and only after both images were built without error — an image recorded for a statement the database refused describes rows that were not changed; (C18.fresh) util.ScanRows.Scan leaves a destination untouched when the source column is NULL, so every call to it inside a row loop gets destinations created inside that loop iteration (a destination slice built once per result set makes a NULL column of a later row keep the previous row's value). (C18.derive, also) the upsert's after-image query has one origin on every path, the builder derived from the statement's key values; (C18.scan, also) ColumnMeta.ColumnDef is set from COLUMN_DEFAULT unconditionally or under a NULL test only;"
+	r.Explain = "The property itself (recorded image == rows the statement changed) ranges over database contents and is NOT decidable statically. Three structural necessary conditions are decided: (C18.derive) the before-image SELECT of update/delete (and their multi-statement variants) takes From/Where/OrderBy/Limit from the business statement's own AST nodes and locks FOR UPDATE, and the argument selection traverses exactly the expression-bearing clauses that were copied; (C18.markers) the parameter-marker collector is complete: it walks the expression with the parser's visitor, or its type switch covers every expression node type of the parser that has expression children and recurses into all of them; (C18.scan) the scan-type table and the JDBC code table agree for every MySQL data type (no integer scan type for a binary/text code and the like); (C18.rows) every loop over a result set in the executors asks Err() before reporting success, so a read that failed mid-way is not taken for the complete image; (C18.case) a column name in folded form (CIStr.L, strings.ToLower/ToUpper) is compared with or looked up among metadata names only when these are folded the same way (a small qualifier analysis over value origins: lower / upper / metadata spelling); (C18.sticky) where one image query covers several statements, the flag that keeps the WHERE clause in that query can only be lowered inside the loop over the statements (once a statement without WHERE was seen the whole table is selected, whatever follows); (C18.clause) an optional clause of the parsed statement (Where, Limit, Order/OrderBy — nil when the statement has none) is used as a method receiver only where it was tested non-nil on every path, so a statement without that clause is handled or rejected instead of crashing the executor; (C18.recorded) an executor adds a before/after image to the transaction's round images only on the nil-error edge of the business statement (the callback) and only after both images were built without error — an image recorded for a statement the database refused describes rows that were not changed; (C18.fresh) util.ScanRows.Scan leaves a destination untouched when the source column is NULL, so every call to it inside a row loop gets destinations created inside that loop iteration (a destination slice built once per result set makes a NULL column of a later row keep the previous row's value). (C18.derive, also) the upsert's after-image query has one origin on every path, the builder derived from the statement's key values; (C18.scan, also) ColumnMeta.ColumnDef is set from COLUMN_DEFAULT unconditionally or under a NULL test only; (C18.pkrows) the primary-key values recovered from the VALUES lists of an INSERT name every row: a slice taken out of a map, appended to and kept in that map is stored back on every path before it is taken out again or the function leaves (path rule), and the tests that count VALUES elements as parameter markers and as non-markers — from which the index of a marker's bound argument is computed — together cover the marker, other strings and non-strings (truth table over the marker test and the string type test, through predicate helpers of the package). Both were violated on the pinned tree (reproduced, repaired in /repo);"
 	r.Trusted = []string{"go/types", "github.com/arana-db/parser: Accept visits every child node", "MySQL information_schema DATA_TYPE spellings (reference list)"}
 	w := r.W
 	_, live := liveATExecutors(w)
@@ -209,6 +210,7 @@ func checkC18(r *core.Run) {
 	}
 	c18UpsertAfter(r)
 	c18ColumnDefault(r)
+	c18PkRows(r, liveFns)
 	r.Floor("C18.derive", 10)
 	r.Floor("C18.markers", 1)
 	r.Floor("C18.scan", 28)
@@ -758,7 +760,7 @@ func c18UpsertAfter(r *core.Run) {
 
 // c18ColumnDefault (C18.scan): the executors tell "column left out of the INSERT takes its default" from "column left
 // out is NULL" by ColumnMeta.ColumnDef being nil. The table-meta loader therefore sets ColumnDef from the scanned
-// COLUMN_DEFAULT whenever that is not NULL — an empty string is a default (DEFAULT ''): the assignment may depend on
+// COLUMN_DEFAULT whenever that is not NULL — an empty string is a default (DEFAULT ”): the assignment may depend on
 // the NULL-ness of the scanned value (x != nil, x.Valid) but not on its content.
 func c18ColumnDefault(r *core.Run) {
 	w := r.W
@@ -820,4 +822,322 @@ func c18ColumnDefault(r *core.Run) {
 	if n == 0 {
 		r.Bad("C18.scan", "table-meta loader records column defaults", "", "no assignment to ColumnMeta.ColumnDef found in the MySQL table-meta loader")
 	}
+}
+
+// c18PkRows (C18.pkrows): the primary-key values recovered from the VALUES lists of an INSERT — from which the after
+// image is selected and the lock keys are built — name every row of the statement. Two structural necessary
+// conditions on the functions the live executors reach:
+//
+//   - write-back: a slice taken out of a map (`v = m[k]`), grown (`v = append(v, ..)`) and kept in the map is stored
+//     back (`m[k] = v`) on every path before v is taken out again or the function leaves; a store under "only if the
+//     key is new" keeps the first row's value and drops the others.
+//   - one classification of VALUES elements: where elements are counted as parameter markers and as non-markers (the
+//     index of a marker's bound argument is computed from both counts), every element falls in one of the two classes.
+//     A non-marker test that asks "a string other than the marker" leaves numbers, NULL and DEFAULT in neither.
+func c18PkRows(r *core.Run, liveFns []*core.FuncInfo) {
+	w := r.W
+	nBack := 0
+	for _, f := range liveFns {
+		if w.IsTestFile(f.Decl.Pos()) || f.Decl.Body == nil {
+			continue
+		}
+		info := f.Pkg.TypesInfo
+		// slices taken out of a map and appended to
+		loaded, grown := map[types.Object]bool{}, map[types.Object]bool{}
+		mapRead := func(e ast.Expr) bool {
+			ix, ok := ast.Unparen(e).(*ast.IndexExpr)
+			if !ok {
+				return false
+			}
+			t := info.TypeOf(ix.X)
+			if t == nil {
+				return false
+			}
+			m, ok := t.Underlying().(*types.Map)
+			if !ok {
+				return false
+			}
+			_, isSlice := m.Elem().Underlying().(*types.Slice)
+			return isSlice
+		}
+		appendTo := func(e ast.Expr) types.Object {
+			c, ok := ast.Unparen(e).(*ast.CallExpr)
+			if !ok || len(c.Args) == 0 {
+				return nil
+			}
+			if id, ok := ast.Unparen(c.Fun).(*ast.Ident); !ok || id.Name != "append" || info.Uses[id] != types.Universe.Lookup("append") {
+				return nil
+			}
+			return core.ObjOf(info, c.Args[0])
+		}
+		ast.Inspect(f.Decl.Body, func(n ast.Node) bool {
+			as, ok := n.(*ast.AssignStmt)
+			if !ok || len(as.Lhs) != len(as.Rhs) {
+				return true
+			}
+			for i, l := range as.Lhs {
+				id, ok := ast.Unparen(l).(*ast.Ident)
+				if !ok {
+					continue
+				}
+				o := core.ObjOf(info, id)
+				if o == nil {
+					continue
+				}
+				if mapRead(as.Rhs[i]) {
+					loaded[o] = true
+				}
+				if appendTo(as.Rhs[i]) == o {
+					grown[o] = true
+				}
+			}
+			return true
+		})
+		var vars []types.Object
+		for o := range loaded {
+			if grown[o] {
+				vars = append(vars, o)
+			}
+		}
+		if len(vars) == 0 {
+			continue
+		}
+		sort.Slice(vars, func(i, j int) bool { return vars[i].Pos() < vars[j].Pos() })
+		tagOf := func(o types.Object) string { return "grown:" + o.Name() + "@" + strconv.Itoa(int(o.Pos())) }
+		isVar := func(o types.Object) bool {
+			for _, v := range vars {
+				if v == o {
+					return true
+				}
+			}
+			return false
+		}
+		sp := &flow.Spec{W: w, Depth: 0,
+			AssignTags: func(pkg *packages.Package, as *ast.AssignStmt) []flow.Tag {
+				if len(as.Lhs) != len(as.Rhs) {
+					return nil
+				}
+				var out []flow.Tag
+				for i, l := range as.Lhs {
+					if id, ok := ast.Unparen(l).(*ast.Ident); ok {
+						o := core.ObjOf(info, id)
+						if o == nil || !isVar(o) {
+							continue
+						}
+						switch {
+						case appendTo(as.Rhs[i]) == o:
+							out = append(out, tagOf(o))
+						case mapRead(as.Rhs[i]):
+							out = append(out, "take:"+tagOf(o), "-"+tagOf(o))
+						default:
+							out = append(out, "-"+tagOf(o)) // another value altogether
+						}
+						continue
+					}
+					// m[k] = v
+					if mapRead(l) {
+						if o := core.ObjOf(info, as.Rhs[i]); o != nil && isVar(o) {
+							out = append(out, "-"+tagOf(o))
+						}
+					}
+				}
+				return out
+			}}
+		res := sp.Analyze(f)
+		r.Fn(f)
+		for _, v := range vars {
+			nBack++
+			r.Sites++
+			bad := ""
+			for _, ap := range res.Assigns {
+				if inSet("take:"+tagOf(v), ap.Tags...) && ap.Before.Maybe(tagOf(v)) {
+					bad = w.Pos(ap.Stmt.Pos()) + ": " + v.Name() + " is taken out of the map again while a value appended to it may not have been stored"
+				}
+			}
+			for _, ex := range res.Exits {
+				returned := false
+				for _, e := range ex.Results {
+					if core.ObjOf(info, e) == v {
+						returned = true
+					}
+				}
+				if !returned && ex.St.Maybe(tagOf(v)) && bad == "" {
+					bad = w.Pos(ex.Pos) + ": the function leaves while a value appended to " + v.Name() + " may not have been stored"
+				}
+			}
+			r.Check(bad == "", "C18.pkrows", core.ShortKey(f.Obj)+" : what is appended to "+v.Name()+" is stored back into the map it was taken from", w.Pos(v.Pos()), "stored back on every path",
+				bad+": the collection keeps the value of the first VALUES row only — the after image and the lock keys of a multi-row INSERT miss every other row, and a rollback leaves those rows in the table")
+		}
+	}
+	if nBack < 1 {
+		r.Undecided("C18.pkrows", "INSTANCE-FLOOR C18.pkrows write-back", "", "no slice taken out of a map and appended to in the functions the executors reach (the pk values of a prepared INSERT are collected that way)")
+	}
+	// ---- one classification of VALUES elements
+	type counting struct {
+		f    *core.FuncInfo
+		cond ast.Expr
+		form c18Form
+	}
+	var cs []counting
+	for _, f := range liveFns {
+		if w.IsTestFile(f.Decl.Pos()) || f.Decl.Body == nil {
+			continue
+		}
+		ast.Inspect(f.Decl.Body, func(n ast.Node) bool {
+			ifs, ok := n.(*ast.IfStmt)
+			if !ok || len(ifs.Body.List) == 0 {
+				return true
+			}
+			for _, st := range ifs.Body.List {
+				switch x := st.(type) {
+				case *ast.IncDecStmt:
+				case *ast.AssignStmt:
+					if x.Tok != token.ADD_ASSIGN {
+						return true
+					}
+				default:
+					return true
+				}
+			}
+			fm, marker := c18Formula(w, f, ifs.Cond, 0)
+			if marker {
+				cs = append(cs, counting{f, ifs.Cond, fm})
+			}
+			return true
+		})
+	}
+	if len(cs) < 2 {
+		r.Undecided("C18.pkrows", "INSTANCE-FLOOR C18.pkrows classification", "", "fewer than two places count VALUES elements by the parameter-marker test (markers and non-markers are both counted to find a marker's bound argument)")
+		return
+	}
+	// the possible elements: the marker string, another string, not a string
+	type elem struct {
+		name string
+		s, m bool
+	}
+	hole := ""
+	for _, e := range []elem{{"the parameter marker", true, true}, {"a string literal", true, false}, {"a value that is not a string (number, NULL, DEFAULT, function call)", false, false}} {
+		covered := 0
+		for _, c := range cs {
+			if c.form(e.s, e.m) {
+				covered++
+			}
+		}
+		if covered == 0 {
+			hole = e.name
+		}
+	}
+	var where []string
+	for _, c := range cs {
+		r.Fn(c.f)
+		where = append(where, w.Pos(c.cond.Pos())+" "+core.ExprString(c.cond))
+	}
+	r.Sites += len(cs)
+	r.Check(hole == "", "C18.pkrows", "every VALUES element is counted as a parameter marker or as a non-marker", w.Pos(cs[0].cond.Pos()), "the counting tests cover the marker, other strings and non-strings",
+		hole+" is counted neither as a marker nor as a non-marker ("+strings.Join(where, "; ")+"): the index of the bound argument of a key placed after such an element is off by one — another argument's value (or a crash of the executor) stands for the inserted row's key")
+}
+
+// c18Form: the truth of a counting test for an element that is / is not a string and is / is not the marker text
+type c18Form func(isString, isMarker bool) bool
+
+// c18Formula reads a condition over the marker test (EqualFold / == with the marker constant "?"), the comma-ok of a
+// string type assertion and helpers of the package returning such a test; anything else (a position test) holds.
+func c18Formula(w *core.World, f *core.FuncInfo, e ast.Expr, depth int) (c18Form, bool) {
+	fm, marker, _ := c18FormulaRel(w, f, e, depth)
+	return fm, marker
+}
+
+// (third result: the expression speaks about the element's class at all — marker test or string test)
+func c18FormulaRel(w *core.World, f *core.FuncInfo, e ast.Expr, depth int) (c18Form, bool, bool) {
+	info := f.Pkg.TypesInfo
+	tru := func(bool, bool) bool { return true }
+	switch x := ast.Unparen(e).(type) {
+	case *ast.Ident:
+		if c18StringOK(f, x) {
+			return func(s, k bool) bool { return s }, false, true
+		}
+	case *ast.UnaryExpr:
+		if x.Op == token.NOT {
+			g, m, rel := c18FormulaRel(w, f, x.X, depth)
+			if !rel {
+				return tru, false, false
+			}
+			return func(s, k bool) bool { return !g(s, k) }, m, true
+		}
+	case *ast.BinaryExpr:
+		switch x.Op {
+		case token.LAND, token.LOR:
+			a, ma, ra := c18FormulaRel(w, f, x.X, depth)
+			b, mb, rb := c18FormulaRel(w, f, x.Y, depth)
+			if !ra && !rb {
+				return tru, false, false
+			}
+			if x.Op == token.LAND {
+				return func(s, k bool) bool { return a(s, k) && b(s, k) }, ma || mb, true
+			}
+			return func(s, k bool) bool { return a(s, k) || b(s, k) }, ma || mb, true
+		case token.EQL, token.NEQ:
+			if c18IsMarkerConst(info, x.X) || c18IsMarkerConst(info, x.Y) {
+				if x.Op == token.EQL {
+					return func(s, k bool) bool { return k }, true, true
+				}
+				return func(s, k bool) bool { return !k }, true, true
+			}
+		}
+	case *ast.CallExpr:
+		g := core.Callee(info, x)
+		if g == nil {
+			break
+		}
+		if g.Pkg() != nil && g.Pkg().Path() == "strings" && g.Name() == "EqualFold" && len(x.Args) == 2 && (c18IsMarkerConst(info, x.Args[0]) || c18IsMarkerConst(info, x.Args[1])) {
+			return func(s, k bool) bool { return k }, true, true
+		}
+		// a predicate of the package: what it returns
+		if h := w.Info(g); h != nil && h.Pkg == f.Pkg && h.Decl.Body != nil && depth < 2 {
+			var rets []*ast.ReturnStmt
+			ast.Inspect(h.Decl.Body, func(n ast.Node) bool {
+				if _, isLit := n.(*ast.FuncLit); isLit {
+					return false
+				}
+				if rs, ok := n.(*ast.ReturnStmt); ok {
+					rets = append(rets, rs)
+				}
+				return true
+			})
+			if len(rets) == 1 && len(rets[0].Results) == 1 {
+				return c18FormulaRel(w, h, rets[0].Results[0], depth+1)
+			}
+		}
+	}
+	return tru, false, false
+}
+
+func c18IsMarkerConst(info *types.Info, e ast.Expr) bool {
+	v := core.ConstVal(info, e)
+	return v != nil && v.Kind() == constant.String && constant.StringVal(v) == "?"
+}
+
+// c18StringOK: id is the bool of `s, ok := v.(string)` in f
+func c18StringOK(f *core.FuncInfo, id *ast.Ident) bool {
+	info := f.Pkg.TypesInfo
+	o := info.Uses[id]
+	if o == nil {
+		return false
+	}
+	found := false
+	ast.Inspect(f.Decl.Body, func(n ast.Node) bool {
+		as, ok := n.(*ast.AssignStmt)
+		if !ok || len(as.Lhs) != 2 || len(as.Rhs) != 1 {
+			return true
+		}
+		ta, ok := ast.Unparen(as.Rhs[0]).(*ast.TypeAssertExpr)
+		if !ok || ta.Type == nil || core.ObjOf(info, as.Lhs[1]) != o {
+			return true
+		}
+		if b, ok := info.TypeOf(ta.Type).(*types.Basic); ok && b.Kind() == types.String {
+			found = true
+		}
+		return true
+	})
+	return found
 }
